@@ -10,7 +10,7 @@ From J5V.gen Require MapRangeGen SetExtGen StateGen.
 From J5V.model Require Import Desc J5sAst J5sWalk J5sConvert CmpbOrder CmpbInstance.
 From J5V.proofs Require Import CmpbOrderProofs CmpbComposeProofs CmpbStateProofs CmpbLinkTotalProofs.
 From J5V.model Require ProtoPrintFile.
-From J5V.proofs Require CmpbPrintBridgeProofs.
+From J5V.proofs Require CmpbPrintBridgeProofs CmpbPrintBridgeExample ProtoPrintFileExample.
 Import ListNotations.
 Local Open Scope N_scope.
 
@@ -254,6 +254,27 @@ Proof.
   exact (fun o1 o2 Hp Hd => conj (CmpbPrintBridgeProofs.lay_sopts_perm o1 o2 Hp Hd) (CmpbPrintBridgeProofs.lay_fopts_perm o1 o2 Hp Hd)).
 Qed.
 Print Assumptions C14_printer_model_options_order_free.
+
+(* ... and therefore the WHOLE printed file of tool's model: two descriptors that differ only in the order of their option
+   lists (CmpbPrintBridgeProofs.dfile_equiv: the options of messages, oneofs, fields, enums, enum values, services, methods
+   and extension fields at every nesting depth, each list permuted arbitrarily, sort keys distinct within a list; element
+   lists, imports, file options and the option VALUES unchanged) print the same tokens.  The entries of a map-valued option
+   are inside the value, which tool's model takes as given: their order is C14_print_map_entries, on this family's model *)
+Theorem C14_printer_model_range_order_free : forall st d1 d2,
+  CmpbPrintBridgeProofs.dfile_equiv d1 d2 -> ProtoPrintFile.print_file_tokens st d1 = ProtoPrintFile.print_file_tokens st d2.
+Proof. exact CmpbPrintBridgeProofs.print_file_tokens_range_order_free. Qed.
+Print Assumptions C14_printer_model_range_order_free.
+(* non-vacuity: tool's example descriptor and the one with the two options of field Foo.id in the other order *)
+Example C14_example_range_order_free :
+  ProtoPrintFileExample.ex_file <> CmpbPrintBridgeExample.ex_file_swapped
+  /\ CmpbPrintBridgeProofs.dfile_equiv ProtoPrintFileExample.ex_file CmpbPrintBridgeExample.ex_file_swapped
+  /\ forall st, ProtoPrintFile.print_file_tokens st ProtoPrintFileExample.ex_file
+                = ProtoPrintFile.print_file_tokens st CmpbPrintBridgeExample.ex_file_swapped.
+Proof.
+  exact (conj CmpbPrintBridgeExample.ex_swapped_differs
+              (conj CmpbPrintBridgeExample.ex_swapped_equiv CmpbPrintBridgeExample.ex_swapped_prints_the_same)).
+Qed.
+Print Assumptions C14_example_range_order_free.
 
 (* field and enum-value options are re-sorted by qualified name: independent of Range order *)
 Theorem C14_print_field_options : forall l1 l2,
